@@ -2,7 +2,7 @@
 import common
 import hexlib
 from common import hx
-from hexlib import HexaryTrie, keccak, Boom, WriteFailed, FailingDict
+from hexlib import HexaryTrie, keccak, Boom, BOOMS, boom, WriteFailed, FailingDict
 
 ID = "C04"
 LEAN_IMPORTS = ["PyTrie.Props.C04", "PyTrie.Props.RawLevel", "PyTrie.Props.NonVacuity"]
@@ -172,7 +172,7 @@ def run_case(case):
                 with trie.squash_changes() as b:
                     for i, iop in enumerate(inner):
                         if raise_at is not None and i == raise_at:
-                            raise Boom()
+                            raise boom(len(inner))
                         ik = bytes.fromhex(iop[1])
                         iv = bytes.fromhex(iop[2]) if iop[0] in ("set", "setitem") else b""
                         if iv:
@@ -184,11 +184,11 @@ def run_case(case):
                             bm.pop(ik, None)
                             res.emit("hx.del b %s" % hx(ik), "ok")
                     if raise_at is not None:
-                        raise Boom()
+                        raise boom(len(inner))
                     if ek == "failcommit":
                         res.emit("hx.failafter %d" % ex[1], "ok")
                         db.fail_after = ex[1]
-            except Boom:
+            except BOOMS:
                 res.emit("hx.bend 1", "ok")
                 failed = True
                 res.tags.add("batch:aborted")
